@@ -474,6 +474,36 @@ theorem backtracking_witnesses :
     getMatchScore Variant.backtracking chainDoc pat_zab 5 = .other := by
   decide
 
+/-! ## every kind of tree -/
+
+/-- **Absolute patterns match relative to whatever root the node's tree has.**  The trees the processor holds are rooted
+in a document node (main source, `document()` loads, Xerces-wrapped sources) or in a document fragment node (result tree
+fragments reached through exsl:node-set / xalan:nodeset, also nested ones) — `Doc.rootKind`.  For either kind the full
+statement holds (`match_iff_select_repaired` does not depend on it), because the root step accepts both node types
+(`rootTypeAccepted`); and the facts regenerated from the source say that the code does: the eFROM_ROOT case of
+`stepPattern` and `NodeTester::testRoot` accept exactly DOCUMENT_NODE and DOCUMENT_FRAGMENT_NODE, `findRoot` (the
+defining side) handles fragments, and the child-axis guard refuses both as "root". -/
+theorem absolute_patterns_any_root (d : Doc) (hwf : d.WF = true) (P : Pattern) (hP : ∀ p ∈ P, p.valid = true)
+    (n : Nat) (hn : n < d.size) :
+    (getMatchScore Variant.backtracking d P n ≠ .none ↔ Spec.matchesPattern d P n = true) ∧
+    (∀ k : RootKind, rootTypeAccepted k = true) ∧
+    (Generated.C09_FromRoot.stepPatternRootTypes = ["DOCUMENT_FRAGMENT_NODE", "DOCUMENT_NODE"] ∧
+      Generated.C09_FromRoot.testRootTypes = ["DOCUMENT_FRAGMENT_NODE", "DOCUMENT_NODE"] ∧
+      Generated.C09_FromRoot.findRootHandlesFragment = true ∧
+      Generated.C09_FromRoot.childGuardRootTypes = ["DOCUMENT_FRAGMENT_NODE", "DOCUMENT_NODE"]) :=
+  ⟨match_iff_select_repaired d hwf P hP n hn, rootTypeAccepted_eq, by decide⟩
+
+/-- non-vacuity: in a result tree fragment `<a><b/></a>` (root = document fragment) `/`, `/a/b` and `/*` match the
+fragment root, the `b`, and the `a` respectively, exactly as the expressions select -/
+example :
+    let d : Doc := { nodes := [⟨.root, "", 0⟩, ⟨.elem, "a", 0⟩, ⟨.elem, "b", 1⟩], rootKind := .fragment }
+    let P : Pattern := [⟨true, []⟩]
+    let Q : Pattern := [⟨true, [(.child, nm "a"), (.child, nm "b")]⟩]
+    d.WF = true ∧ (List.range 3).map (fun n => (getMatchScore Variant.backtracking d P n).toNat) = [4, 0, 0] ∧
+      (List.range 3).map (fun n => (getMatchScore Variant.backtracking d Q n).toNat) = [0, 0, 4] ∧
+      (List.range 3).map (fun n => Spec.matchesPattern d Q n) = [false, false, true] := by
+  decide
+
 /-! ## number-valued predicates -/
 
 /-- **A predicate whose value is a number is positional, whatever its syntactic form** (XPath 1.0 §2.4): `[2]`,
